@@ -18,8 +18,13 @@ for id in "$@"; do
   CARGO_TARGET_DIR=$W/target cargo test --workspace --no-fail-fast --offline 2>&1 | grep -E "^test .* (ok|FAILED)$" | sort > $D/tests.txt
   CARGO_TARGET_DIR=$W/target cargo build -q --offline -p compiler --bin compiler 2>/dev/null
   demo=$D/demo/main.gom
-  ( ulimit -v 4000000; timeout 20 $CLEAN/compiler run $demo --dump-go > $D/before.txt 2>&1; echo "exit=$?" >> $D/before.txt )
-  ( ulimit -v 4000000; timeout 20 $W/target/debug/compiler run $demo --dump-go > $D/after.txt 2>&1; echo "exit=$?" >> $D/after.txt )
+  if [ -f $D/demo/run.sh ]; then
+    ( cd $D/demo; ulimit -v 4000000; timeout 120 sh run.sh $CLEAN/compiler > $D/before.txt 2>&1; echo "exit=$?" >> $D/before.txt )
+    ( cd $D/demo; ulimit -v 4000000; timeout 120 sh run.sh $W/target/debug/compiler > $D/after.txt 2>&1; echo "exit=$?" >> $D/after.txt )
+  else
+    ( ulimit -v 4000000; timeout 20 $CLEAN/compiler run $demo --dump-ast --dump-go > $D/before.txt 2>&1; echo "exit=$?" >> $D/before.txt )
+    ( ulimit -v 4000000; timeout 20 $W/target/debug/compiler run $demo --dump-ast --dump-go > $D/after.txt 2>&1; echo "exit=$?" >> $D/after.txt )
+  fi
   git checkout -q -- .
   python3 - $D $id $s <<'PY'
 import json,re,sys
